@@ -141,6 +141,7 @@ theorem barTrace_fm_hook {α : Type} (P : Ev → Option α) (c : Nat) (hP : ∀ 
 /-- the action an event records (`_record_action_list`): accepted operations and what `update()` records -/
 def recordedAct : Ev → Option Act
   | .opOk ts _ m tag => some ⟨tag, ts, m⟩
+  | .opFree ts _ m tag true => some ⟨tag, ts, m⟩
   | .uact ts m tag => some ⟨tag, ts, m⟩
   | _ => none
 
@@ -185,10 +186,14 @@ theorem doOp_frame (ts : Int) (h : Hook) (op : OpSpec) (st : St) : Frame st (doO
   split
   · exact Frame.refl st
   · split
-    · exact ⟨rfl, rfl, by simp [recOf, recordedAct], by simp [recOf, recordedAct]⟩
     · split
       · exact ⟨rfl, rfl, by simp [recOf, recordedAct], by simp [recOf, recordedAct]⟩
       · exact ⟨rfl, rfl, by simp [recOf, recordedAct], by simp [recOf, recordedAct]⟩
+    · split
+      · exact ⟨rfl, rfl, by simp [recOf, recordedAct], by simp [recOf, recordedAct]⟩
+      · split
+        · exact ⟨rfl, rfl, by simp [recOf, recordedAct], by simp [recOf, recordedAct]⟩
+        · exact ⟨rfl, rfl, by simp [recOf, recordedAct], by simp [recOf, recordedAct]⟩
 
 theorem runOps_frame (ts : Int) (h : Hook) : ∀ (ops : List OpSpec) (st : St), Frame st (runOps ts h ops st)
   | [], st => Frame.refl st
